@@ -433,4 +433,33 @@ def runOps2 {V B : Type} [DecidableEq V] (x : Exec2 V B) (s : Dicts V B) : List 
 /-- number of distinct keys held by a dictionary (what `len(executor.Ein)` shows) -/
 def dictLen {V B : Type} [DecidableEq V] (c : Cache V B) : Nat := (c.map Prod.fst).eraseDups.length
 
+/-! ## `_key` / the head of `czt2`: how the argument FORMS are normalised before they enter the cache key -/
+
+/-- one parameter: `broadcast` = `if not isinstance(p, Iterable): p = (p, p)`; `conv` = the conversion applied to each element
+(`"float"`, `"int"`, or `"elem"`: elements as given) -/
+structure ArgNorm where
+  param : String
+  broadcast : Bool
+  conv : String
+deriving DecidableEq, Repr
+
+/-- an argument as the caller hands it over: one value, or a pair (tuple / list / array of two) -/
+inductive Arg (V : Type) where
+  | scalar (v : V)
+  | pair (a b : V)
+
+/-- the sampling an argument denotes: a scalar stands for both axes -/
+def Arg.den {V : Type} : Arg V → V × V
+  | .scalar v => (v, v)
+  | .pair a b => (a, b)
+
+/-- the normalised key component (`none`: a scalar that is not broadcast cannot be unpacked — `TypeError`) -/
+def normArg {V : Type} (conv : String → V → V) (a : ArgNorm) : Arg V → Option (V × V)
+  | .scalar v => if a.broadcast then some (conv a.conv v, conv a.conv v) else none
+  | .pair x y => some (conv a.conv x, conv a.conv y)
+
+def mdftKeyNormRef : List ArgNorm :=
+  [⟨"Q", true, "float"⟩, ⟨"samples_in", true, "int"⟩, ⟨"samples_out", true, "int"⟩, ⟨"shift", true, "elem"⟩]
+def cztKeyNormRef : List ArgNorm := [⟨"Q", true, "float"⟩, ⟨"samples_out", true, "int"⟩, ⟨"shift", true, "elem"⟩]
+
 end Model.C01
